@@ -145,7 +145,7 @@ func sigAlterations(n int) []string {
 	out := []string{"empty-list", "duplicate-first"}
 	for i := 0; i < n; i++ {
 		out = append(out, fmt.Sprintf("drop-%d", i), fmt.Sprintf("corrupt-first-byte-%d", i), fmt.Sprintf("corrupt-middle-byte-%d", i),
-			fmt.Sprintf("corrupt-last-byte-%d", i), fmt.Sprintf("from-other-layout-%d", i), fmt.Sprintf("empty-sig-%d", i))
+			fmt.Sprintf("corrupt-last-byte-%d", i), fmt.Sprintf("from-other-layout-%d", i), fmt.Sprintf("empty-sig-%d", i), fmt.Sprintf("undecodable-sig-%d", i))
 	}
 	for i := 0; i+1 < n; i++ {
 		out = append(out, fmt.Sprintf("swap-keyids-%d-%d", i, i+1), fmt.Sprintf("swap-sigs-%d-%d", i, i+1))
@@ -189,6 +189,9 @@ func applySigAlt(path string, a string, dsse bool, otherSigs []any) {
 			sigs[i].(map[string]any)["sig"] = otherSigs[i].(map[string]any)["sig"]
 		case scan(a, "empty-sig-%d", &i):
 			sigs[i].(map[string]any)["sig"] = ""
+		case scan(a, "undecodable-sig-%d", &i):
+			// not a string of the wrapper's signature encoding at all (base64 / hexadecimal)
+			sigs[i].(map[string]any)["sig"] = "*not*an*encoded*signature*"
 		case scan2(a, "swap-keyids-%d-%d", &i, &j):
 			x, y := sigs[i].(map[string]any), sigs[j].(map[string]any)
 			x["keyid"], y["keyid"] = y["keyid"], x["keyid"]
@@ -209,7 +212,7 @@ func scan2(s, f string, i, j *int) bool {
 
 // "+after-genuine": the same process first verifies with the genuine keys (history of length 2);
 // "+then-genuine": afterwards the genuine keys must still be accepted.
-var keyAlterations = []string{"same-id-foreign-material", "map-key-differs", "extra-unsigned-key", "private-half-supplied",
+var keyAlterations = []string{"genuine-and-same-id-foreign-material", "same-id-foreign-material", "map-key-differs", "extra-unsigned-key", "private-half-supplied",
 	"same-id-foreign-material+after-genuine", "same-id-foreign-material+then-genuine", "extra-unsigned-key+after-genuine",
 	"no-key-map", "no-key-map+after-genuine"}
 
@@ -496,6 +499,11 @@ func prepare(c *mcx.Ctx, cs Case) prepared {
 						p.expect = "reject"
 					}
 				}
+				if strings.HasPrefix(cs.Alt, "undecodable-sig") && p.expect == "accept" {
+					// an entry of a signer the verifier did not ask for is not a string of the signature encoding:
+					// the property demands no acceptance here (the DSSE verifier refuses such an envelope as a whole)
+					p.expect = "either"
+				}
 			}
 		}
 		load()
@@ -523,6 +531,20 @@ func prepare(c *mcx.Ctx, cs Case) prepared {
 			}
 			forged.KeyID = k.ID
 			p.keys[k.ID] = forged
+			p.expect = "reject"
+		case "genuine-and-same-id-foreign-material":
+			// next to the genuine key, under another index of the map, a key object of other material whose key id
+			// FIELD is the genuine key's: that supplied key made no signature
+			k := gen.Key(cs.V[0])
+			forged := gen.Key("ed6").Pub
+			if k.Kind != "ed25519" {
+				forged = gen.Key("p256d").Pub
+				if k.Kind == "rsa" {
+					forged = gen.Key("rsa2048b").Pub
+				}
+			}
+			forged.KeyID = k.ID
+			p.keys["second-index-"+k.ID[:8]] = forged
 			p.expect = "reject"
 		case "map-key-differs":
 			k := gen.Key(cs.V[0])
